@@ -19,6 +19,8 @@ func main() {
 		os.Exit(cmdCheck(os.Args[2:]))
 	case "replay":
 		os.Exit(cmdReplay(os.Args[2:]))
+	case "survey":
+		os.Exit(cmdSurvey(os.Args[2:]))
 	case "manifest":
 		os.Exit(cmdManifest())
 	case "selftest":
@@ -93,3 +95,47 @@ func shortFile(f string) string {
 	return f
 }
 
+
+// cmdSurvey lists, for a property, every function it would verify and
+// whether generation succeeds (development aid).
+func cmdSurvey(args []string) int {
+	prop := properties()[args[0]]
+	eng := newEngine(repoDir())
+	eng.requireVariants = prop.RequireVars
+	eng.onlySafe = prop.OnlySafe
+	if err := eng.load(prop.Patterns...); err != nil {
+		fmt.Println("TOOL-ERROR:", err)
+		return 2
+	}
+	if err := eng.loadSpecs(verifDir() + "/specs"); err != nil {
+		fmt.Println("TOOL-ERROR:", err)
+		return 2
+	}
+	funcs := prop.Funcs
+	if prop.Closure != nil {
+		funcs = append(funcs, prop.Closure(eng)...)
+	}
+	var results []*FuncResult
+	for _, k := range funcs {
+		r := eng.verifyFunction(modulePrefix+"/"+k, nil)
+		results = append(results, r)
+	}
+	if len(args) > 1 && args[1] == "solve" {
+		discharge(results, dischargeOpts{timeoutS: 10, workers: 12})
+	}
+	for _, r := range results {
+		status := "ok"
+		if r.Unsupported != "" {
+			status = "UNSUPPORTED: " + firstLine(r.Unsupported)
+		}
+		bad := 0
+		for _, o := range r.Obligations {
+			if o.Result.Status != "" && o.Result.Status != "unsat" && prop.Kinds[o.Kind] {
+				bad++
+				fmt.Printf("      FAIL %s %s [%s:%d]\n", o.Result.Status, o.Name, shortFile(o.Pos.Filename), o.Pos.Line)
+			}
+		}
+		fmt.Printf("%-60s %3d obl %2d bad  %s\n", shortKey(r.Key), len(r.Obligations), bad, status)
+	}
+	return 0
+}
